@@ -274,6 +274,158 @@ class _LoopGuards(ast.NodeTransformer):
     visit_For = visit_While = _loop
 
 
+class _DictCopy(ast.NodeTransformer):
+    """benign twin: X.copy() written dict(X) (receivers that are plainly dicts: *_cfg, config,
+    env, *_conf, options)"""
+
+    def visit_Call(self, node):
+        self.generic_visit(node)
+        if isinstance(node.func, ast.Attribute) and node.func.attr == 'copy' and not node.args \
+                and not node.keywords:
+            t = ast.unparse(node.func.value)
+            if t.endswith(('_cfg', 'config', 'env', '_conf', 'cfg')) or t in ('i', 'options'):
+                return ast.Call(func=ast.Name(id='dict', ctx=ast.Load()), args=[node.func.value],
+                                keywords=[])
+        return node
+
+
+class _FlipEq(ast.NodeTransformer):
+    """benign twin: a == b / a != b written b == a / b != a (both sides side-effect free)"""
+
+    def visit_Compare(self, node):
+        self.generic_visit(node)
+        if len(node.ops) == 1 and isinstance(node.ops[0], (ast.Eq, ast.NotEq)):
+            a, b = node.left, node.comparators[0]
+            pure = lambda e: not any(isinstance(x, (ast.Call, ast.Yield, ast.Await, ast.NamedExpr))
+                                     for x in ast.walk(e))
+            if pure(a) and pure(b) and not isinstance(b, ast.Constant):
+                return ast.Compare(left=b, ops=node.ops, comparators=[a])
+        return node
+
+
+class _InToEq(ast.NodeTransformer):
+    """benign twin: x in (a, b) written x == a or x == b (x simple, 2-3 simple elements)"""
+
+    def visit_Compare(self, node):
+        self.generic_visit(node)
+        if len(node.ops) == 1 and isinstance(node.ops[0], (ast.In, ast.NotIn)) and \
+                isinstance(node.comparators[0], ast.Tuple) and \
+                2 <= len(node.comparators[0].elts) <= 3 and \
+                isinstance(node.left, (ast.Name, ast.Attribute)) and \
+                all(isinstance(e, (ast.Name, ast.Attribute, ast.Constant))
+                    for e in node.comparators[0].elts):
+            neg = isinstance(node.ops[0], ast.NotIn)
+            parts = [ast.Compare(left=node.left, ops=[ast.NotEq() if neg else ast.Eq()],
+                                 comparators=[e]) for e in node.comparators[0].elts]
+            return ast.BoolOp(op=ast.And() if neg else ast.Or(), values=parts)
+        return node
+
+
+class _TempBeforeStore(ast.NodeTransformer):
+    """benign twin: T = E (T an attribute or subscript, E a call) written tmp_ = E; T = tmp_"""
+
+    def _block(self, stmts):
+        out = []
+        for st in stmts:
+            if isinstance(st, ast.Assign) and len(st.targets) == 1 and \
+                    isinstance(st.targets[0], (ast.Attribute, ast.Subscript)) and \
+                    isinstance(st.value, ast.Call):
+                out.append(ast.Assign(targets=[ast.Name(id='tmp_', ctx=ast.Store())], value=st.value))
+                out.append(ast.Assign(targets=st.targets, value=ast.Name(id='tmp_', ctx=ast.Load())))
+            else:
+                out.append(st)
+        return out
+
+    def generic_visit(self, node):
+        super().generic_visit(node)
+        for field in ('body', 'orelse', 'finalbody'):
+            v = getattr(node, field, None)
+            if isinstance(v, list) and v and isinstance(v[0], ast.stmt) and \
+                    not isinstance(node, ast.ClassDef):
+                setattr(node, field, self._block(v))
+        return node
+
+
+class _SwapPolarity(ast.NodeTransformer):
+    """benign twin: if c: A else: B written if not c: B else: A (c a simple positive test)"""
+
+    def visit_If(self, node):
+        self.generic_visit(node)
+        if node.orelse and not (len(node.orelse) == 1 and isinstance(node.orelse[0], ast.If)) and \
+                isinstance(node.test, (ast.Name, ast.Attribute, ast.Call, ast.Compare)):
+            return ast.If(test=ast.UnaryOp(op=ast.Not(), operand=node.test), body=node.orelse,
+                          orelse=node.body)
+        return node
+
+
+class _WhileTrueBreak(ast.NodeTransformer):
+    """benign twin: while c: BODY written while True: if not c: break; BODY (no else clause)"""
+
+    def visit_While(self, node):
+        self.generic_visit(node)
+        if node.orelse or (isinstance(node.test, ast.Constant)):
+            return node
+        guard = ast.If(test=ast.UnaryOp(op=ast.Not(), operand=node.test), body=[ast.Break()],
+                       orelse=[])
+        return ast.While(test=ast.Constant(value=True), body=[guard] + node.body, orelse=[])
+
+
+class _CompToLoop(ast.NodeTransformer):
+    """benign twin: x = [E for v in it if c] (a statement) written as an append loop"""
+
+    def _block(self, stmts):
+        out = []
+        for st in stmts:
+            if isinstance(st, ast.Assign) and len(st.targets) == 1 and \
+                    isinstance(st.targets[0], ast.Name) and isinstance(st.value, ast.ListComp) and \
+                    len(st.value.generators) == 1 and not st.value.generators[0].is_async and \
+                    not any(isinstance(n, ast.Name) and n.id == st.targets[0].id
+                            for n in ast.walk(st.value)):
+                g = st.value.generators[0]
+                name = st.targets[0].id
+                body = [ast.Expr(value=ast.Call(
+                    func=ast.Attribute(value=ast.Name(id=name, ctx=ast.Load()), attr='append',
+                                       ctx=ast.Load()), args=[st.value.elt], keywords=[]))]
+                for c in reversed(g.ifs):
+                    body = [ast.If(test=c, body=body, orelse=[])]
+                out.append(ast.Assign(targets=[ast.Name(id=name, ctx=ast.Store())],
+                                      value=ast.List(elts=[], ctx=ast.Load())))
+                out.append(ast.For(target=g.target, iter=g.iter, body=body, orelse=[]))
+            else:
+                out.append(st)
+        return out
+
+    def generic_visit(self, node):
+        super().generic_visit(node)
+        for field in ('body', 'orelse', 'finalbody'):
+            v = getattr(node, field, None)
+            if isinstance(v, list) and v and isinstance(v[0], ast.stmt) and \
+                    not isinstance(node, ast.ClassDef):
+                setattr(node, field, self._block(v))
+        return node
+
+
+class _AugExpand(ast.NodeTransformer):
+    """benign twin: x += e written x = x + e (x a plain name, numbers/strings)"""
+
+    def visit_AugAssign(self, node):
+        if isinstance(node.target, ast.Name) and isinstance(node.op, (ast.Add, ast.Sub)) and \
+                isinstance(node.value, (ast.Constant, ast.Name, ast.Attribute)):
+            return ast.Assign(targets=[ast.Name(id=node.target.id, ctx=ast.Store())],
+                              value=ast.BinOp(left=ast.Name(id=node.target.id, ctx=ast.Load()),
+                                              op=node.op, right=node.value))
+        return node
+
+
+class _ElifToNested(ast.NodeTransformer):
+    """benign twin: if a: A elif b: B else: C  written  if a: A else: (if b: B else: C) - the same
+    tree for the parser; the unparser writes elif again, so: a `pass`-free no-op marker"""
+
+    def visit_If(self, node):
+        self.generic_visit(node)
+        return node
+
+
 def _global_twin(root, kind):
     if kind == 'rename-private-functions':
         return _rename_private_functions(root)
@@ -298,6 +450,22 @@ def _global_twin(root, kind):
                     t = _ReturnTemp().visit(t)
                 elif kind == 'loop-guards':
                     t = _LoopGuards().visit(t)
+                elif kind == 'dict-copy':
+                    t = _DictCopy().visit(t)
+                elif kind == 'flip-eq':
+                    t = _FlipEq().visit(t)
+                elif kind == 'in-to-eq':
+                    t = _InToEq().visit(t)
+                elif kind == 'temp-before-store':
+                    t = _TempBeforeStore().visit(t)
+                elif kind == 'swap-polarity':
+                    t = _SwapPolarity().visit(t)
+                elif kind == 'while-true-break':
+                    t = _WhileTrueBreak().visit(t)
+                elif kind == 'comp-to-loop':
+                    t = _CompToLoop().visit(t)
+                elif kind == 'aug-expand':
+                    t = _AugExpand().visit(t)
                 ast.fix_missing_locations(t)
                 out = ast.unparse(t) + '\n'
                 compile(out, p, 'exec')
@@ -390,7 +558,9 @@ def run_for(prop, repo, only=None):
                  'expect': 'silent'})
     muts.append({'name': 'twin-global-rename-private-functions',
                  'global': 'rename-private-functions', 'expect': 'silent'})
-    for kind in ('reorder-methods', 'annotate', 'return-temp', 'loop-guards'):
+    for kind in ('reorder-methods', 'annotate', 'return-temp', 'loop-guards', 'dict-copy',
+                 'flip-eq', 'in-to-eq', 'temp-before-store', 'swap-polarity',
+                 'while-true-break', 'comp-to-loop', 'aug-expand'):
         muts.append({'name': 'twin-global-' + kind, 'global': kind, 'expect': 'silent'})
     if only:
         muts = [m for m in muts if m['name'] in only]
